@@ -291,6 +291,10 @@ pub struct Scenario {
     pub mutation: Option<Mutation>,
     /// Run the passive sniffer over every datagram handed to the tracer.
     pub sniff: bool,
+    /// The generator guarantees a quiet, lossless network whose rounds are long enough for
+    /// every probe up to the target to be sent and answered: every round outside a route
+    /// change must find the target at its true distance.
+    pub epoch_liveness: bool,
 }
 
 fn layout_json(l: &ErrorLayout) -> Value {
@@ -306,6 +310,7 @@ fn layout_json(l: &ErrorLayout) -> Value {
         ErrorLayout::CompliantNoExt => json!("rfc4884-length-no-ext"),
         ErrorLayout::Compliant(o) => json!({"rfc4884": objs(o)}),
         ErrorLayout::Legacy128(o) => json!({"legacy128": objs(o)}),
+        ErrorLayout::CompliantShortLength(o) => json!({"rfc4884-unpadded-length": objs(o)}),
     }
 }
 
